@@ -26,6 +26,11 @@ func runC02(c *Check) {
 	}
 	c02Core(c, "C02", r)
 	c02Dispatch(c, "C02", r)
+	// "a settlement the handler made itself is never overridden" rests on Message's first-wins state machine
+	if m := c.messageFields("C02.O8"); m != nil {
+		c03Guarded(c, "C02.O8", m)
+		c03Typestate(c, "C02", m, c03ClosedGlobal(m))
+	}
 }
 
 // c02Core holds O1..O6; shared with C01.
@@ -191,52 +196,7 @@ func c02Core(c *Check, P string, r *RouterRoles) {
 		}
 	}
 
-	// O5 HELPER-RESULT
-	for _, pc := range pubErrCalls {
-		H := CalleeFn(pc.Common())
-		if H == nil || IsCallTo(pc, nPublish) {
-			continue // Publish invoked directly in D: its result is the tested value
-		}
-		c.Use(P+".O5", H, "publish helper")
-		pubs := CallsLeadingTo(H, 2, nPublish)
-		hp := ResultOfAny(pubs, 0)
-		hOK, _ := NilEdges(H, hp)
-		var outParams []*ssa.Parameter
-		for _, prm := range H.Params {
-			if ts := prm.Type().Underlying().String(); ts == "[]"+tMessagePtr {
-				outParams = append(outParams, prm)
-			}
-		}
-		isOut := func(v ssa.Value) bool {
-			for _, prm := range outParams {
-				if FromParam(prm)(v) {
-					return true
-				}
-			}
-			return false
-		}
-		empty, _ := LenZeroEdges(H, isOut)
-		okEdges := append(append([]Edge{}, hOK...), empty...)
-		for i, ret := range Returns(H) {
-			k := fmt.Sprintf("return#%d", i)
-			vals := Origins(ret.Results[len(ret.Results)-1])
-			for _, v := range vals {
-				if IsNilConst(v) {
-					// a nil that flows in via phi: require the guard at the return
-					c.Report(GuardedBy(H, ret, okEdges) || nilOnlyOnEdges(ret, v, okEdges), P+".O5", "HELPER-NIL-ONLY-IF-PUBLISHED", H, ret.Pos(), k,
-						"nil is returned only when there was nothing to publish or Publish returned nil (a publish error is never swallowed)")
-				} else {
-					ok := hp(v) || IsGlobalLoad(v, msgPkg, "ErrOutputInNoPublisherHandler") || wrapsOneOf(v, hp)
-					c.Report(ok, P+".O5", "HELPER-ERROR-KEPT", H, ret.Pos(), k, "a non-nil result is the Publish error (possibly wrapped) or ErrOutputInNoPublisherHandler")
-				}
-			}
-		}
-		// Publish arguments: receiver/topic/messages are C08's; here: not in a goroutine
-		for _, pb := range pubs {
-			_, isGo := pb.(*ssa.Go)
-			c.Report(!isGo, P+".O5", "PUBLISH-SYNCHRONOUS", H, pb.Pos(), "Publish invoke", "Publish is called synchronously (its result is the helper's result)")
-		}
-	}
+	c02HelperResult(c, P+".O5", r, pubErrCalls)
 
 	// O6 NO-PUBLISHER
 	if np := c.P.Method("message", "Router", "AddNoPublisherHandler"); c.Use(P+".O6", np, "Router.AddNoPublisherHandler") {
@@ -407,4 +367,58 @@ func wrapsOneOf(v ssa.Value, pred func(ssa.Value) bool) bool {
 		}
 	}
 	return false
+}
+
+// c02HelperResult: the publish helper between the dispatch function and
+// Publisher.Publish returns nil only when nothing was to publish or Publish
+// returned nil (shared with C08.O4).
+func c02HelperResult(c *Check, id string, r *RouterRoles, pubErrCalls []ssa.CallInstruction) {
+	D := r.Dispatch
+	_ = D
+	for _, pc := range pubErrCalls {
+		H := CalleeFn(pc.Common())
+		if H == nil || IsCallTo(pc, nPublish) {
+			continue // Publish invoked directly in D: its result is the tested value
+		}
+		c.Use(id, H, "publish helper")
+		pubs := CallsLeadingTo(H, 2, nPublish)
+		hp := ResultOfAny(pubs, 0)
+		hOK, _ := NilEdges(H, hp)
+		var outParams []*ssa.Parameter
+		for _, prm := range H.Params {
+			if ts := prm.Type().Underlying().String(); ts == "[]"+tMessagePtr {
+				outParams = append(outParams, prm)
+			}
+		}
+		isOut := func(v ssa.Value) bool {
+			for _, prm := range outParams {
+				if FromParam(prm)(v) {
+					return true
+				}
+			}
+			return false
+		}
+		empty, _ := LenZeroEdges(H, isOut)
+		okEdges := append(append([]Edge{}, hOK...), empty...)
+		for i, ret := range Returns(H) {
+			k := fmt.Sprintf("return#%d", i)
+			vals := Origins(ret.Results[len(ret.Results)-1])
+			for _, v := range vals {
+				if IsNilConst(v) {
+					// a nil that flows in via phi: require the guard at the return
+					c.Report(GuardedBy(H, ret, okEdges) || nilOnlyOnEdges(ret, v, okEdges), id, "HELPER-NIL-ONLY-IF-PUBLISHED", H, ret.Pos(), k,
+						"nil is returned only when there was nothing to publish or Publish returned nil (a publish error is never swallowed)")
+				} else {
+					ok := hp(v) || IsGlobalLoad(v, msgPkg, "ErrOutputInNoPublisherHandler") || wrapsOneOf(v, hp)
+					c.Report(ok, id, "HELPER-ERROR-KEPT", H, ret.Pos(), k, "a non-nil result is the Publish error (possibly wrapped) or ErrOutputInNoPublisherHandler")
+				}
+			}
+		}
+		// Publish arguments: receiver/topic/messages are C08's; here: not in a goroutine
+		for _, pb := range pubs {
+			_, isGo := pb.(*ssa.Go)
+			c.Report(!isGo, id, "PUBLISH-SYNCHRONOUS", H, pb.Pos(), "Publish invoke", "Publish is called synchronously (its result is the helper's result)")
+		}
+	}
+
 }
